@@ -131,7 +131,7 @@ const NSLOTS: usize = 8;
 const OCCS: usize = 3;
 
 /// Valid GraphQL names used as name texts; the location documents contain each OCCS times.
-pub const POOL: [&str; 8] = [
+pub const POOL: [&str; 10] = [
     "a",
     "b",
     "id",
@@ -139,8 +139,18 @@ pub const POOL: [&str; 8] = [
     "_x1",
     "name",
     "TypeName0",
-    "a_long_name_0123456789_abcdefghijklmnopqrstuvwxyz_ABCDEFGHIJKLMNOPQRSTUVWXYZ",
+    LONG,
+    // two prefixes of LONG that start at the same address: static names are compared by text, never by
+    // the address of their first byte alone
+    prefix(LONG, 11),
+    prefix(LONG, 6),
 ];
+const LONG: &str = "a_long_name_0123456789_abcdefghijklmnopqrstuvwxyz_ABCDEFGHIJKLMNOPQRSTUVWXYZ";
+const fn prefix(s: &'static str, n: usize) -> &'static str {
+    assert!(n <= s.len());
+    // SAFETY: LONG is ASCII, so every prefix is valid UTF-8 and lies inside the same static
+    unsafe { std::str::from_utf8_unchecked(std::slice::from_raw_parts(s.as_ptr(), n)) }
+}
 /// Texts that are not names: only through `from_arc_unchecked` / `new_unchecked` (documented as
 /// memory-safe) and as `Node<str>` contents.
 const ODD: [&str; 6] = ["", "1", "a b", "é", "\u{10FFFF}x", "a\0b"];
